@@ -12,6 +12,21 @@ TB = ("Trusted: Coq 8.16.1 kernel (no axioms: every property theorem prints 'Clo
       "(hand-written Gallina model tied by differential runs on every check).")
 
 CLAIMS = {
+    "C01": ("SPEC Model/PegSpec.v (PEG semantics of pest: dynamic atomicity, skip structure, forced-atomic skip rules, immutable stack) "
+            "validated against the real pest parser on every explored case; generator model Model/Translate.v tied by V1 (real generator "
+            "output extracted from the token stream == translate, seeded random grammars, no rustc); derive corpus compiled through both "
+            "derives: typed == faithful model == spec. Theorems: see Properties/C01.v (witness C01_refuted_ws for the known class "
+            "WsNonAtomic; simulation theorems as far as proved). Known finding F2.", "DESIGN.md §4 C01"),
+    "C02": ("Token theorems C02_lookahead_no_tokens / C02_silent_transparent / C02_atomic_pruned / C02_rule_token / "
+            "C02_skipped_before_matched, witness C02_refuted_ws; tie: typed pair tree == model tokens == pruned spec tokens (spec tokens == "
+            "real pest Pairs on every case). Known finding F8 (class WsNonAtomic).", "DESIGN.md §4 C02"),
+    "C07": ("Theorems C07_skip_token (every Seq/Rep of a translated body carries the defining rule's skip), C07_rule_reference, "
+            "C07_inheritance, C07_skip_rules_atomic, C07_no_skip_at_start / _when_off / _at_rule_edges, C07_rep_gives_back, witness "
+            "C07_refuted_ws; tie: V1 + kind-nesting grammar family against the PEG spec / pest. Known finding F2.", "DESIGN.md §4 C07"),
+    "C17": ("Theorems C17_first_match (+_impl), C17_accessor_unique / _exactly_one, C17_chain, C17_match_choices (all arities), C17_seq, "
+            "C17_rep, C17_leaf_text; tie: arities 2..16 (library and macro-generated) x alternative index x overlapping inputs, accessors, "
+            "helper chain, match_choices!, sequence/repetition accessors, leaf fields, vs model and an independent oracle.",
+            "DESIGN.md §4 C17"),
     "C03": ("Theorem C03_check_is_parse (all environments, expressions, states, fuel): tcheck = erase . tparse incl. stack and tracker "
             "trace; lifted to partial and full entry points. Tie: every catalogue shape x all small inputs, model vs runtime crate "
             "(parse path and check path separately) and implementation parse vs check directly.", "DESIGN.md §4 C03"),
